@@ -601,6 +601,8 @@ def rrHeader (r : PState) : RM ((Option Nat × Nat) × PState) := do
 
 /-- the RDATA part of `_rr_line`, the SOA-minimum default and the final TTL check -/
 def rrFinish (name : Name) (ttl : Option Nat) (ty : Nat) (r : PState) : RM (Option Entry × PState) := do
+  -- call site 1 of `dns.rdata.from_text` (`_rr_line`): (origin, relativize, relativize_to) =
+  -- (self.current_origin, self.relativize, self.zone_origin)
   let (rd, comment, s) ← rdataFromText ty r.tok r.currentOrigin r.relativize r.zoneOrigin r.gfix
   let r := { r with tok := s }
   let (ttl, r) :=
@@ -762,7 +764,10 @@ def genItem (ttl ty : Nat) (item : List Nat × List Nat) (r : PState) : RM (Opti
         match nameE with
         | .error e => .error e
         | .ok name =>
-          -- the rdata is parsed from a fresh tokenizer over the substituted string
+          -- the rdata is parsed from a fresh tokenizer over the substituted string; call site 2 of
+          -- `dns.rdata.from_text` (`_generate_line`), with its own argument triple (origin, relativize, relativize_to) =
+          -- (self.current_origin, self.relativize, self.zone_origin) — names are completed with the current origin and
+          -- relativized against the zone origin, as at call site 1
           match rdataFromText ty (TState.init item.2) r.currentOrigin r.relativize r.zoneOrigin r.gfix with
           | .error e => .error e
           | .ok (rd, comment, _) => pure (some ⟨name, ttl, ty, ⟨rd, comment⟩⟩, r)
